@@ -206,7 +206,7 @@ def c07_finalize(report, cfg, only=None, positions=None):
                     report.ok("R7.4", ikey, sample={"hasher": name, "buffered": p, "padding_blocks": nb} if p in (0, bb - 9, bb - 8) else None)
                 else:
                     report.violated("R7.4", ikey, "%s finalisation with %d buffered bytes: digest byte %d differs from (pad 0x80, zeros, 64-bit BE count of %d more block(s); last %d bytes of the output transformation)"
-                                    % (name, p, i // 8, nb, nout), graphs=(got, exp))
+                                    % (name, p, i // 8, nb, nout), graphs=(got, exp), boundary=(it, nb + 1))
             engine_guard(go, report, "R7.4", ikey)
     return total
 
@@ -262,7 +262,7 @@ def c07_update(report, cfg):
                     pos2, _, _ = by_name(it, buf2, bt, "pos")
                     if it.to_bits(comp2, ct) != s:
                         report.violated("R7.6", ikey, "%s::update does not feed exactly the %d complete blocks of the stream to the compressor" % (name, nfull),
-                                        graphs=(it.to_bits(comp2, ct), s))
+                                        graphs=(it.to_bits(comp2, ct), s), boundary=(it, nfull))
                     elif cnt2 != bv.add(cnt, bv.const(nfull, 64)):
                         report.violated("R7.6", ikey, "%s::update: block counter is not advanced by the number of compressed blocks (%d)" % (name, nfull),
                                         graphs=(cnt2, bv.add(cnt, bv.const(nfull, 64))))
